@@ -441,7 +441,8 @@ func runC09(r *core.Run) {
 			t.meas, t.measClass = is.Golden.SevSnp.Measurements[c], "endorsed-other-count"
 		}
 		t.blob, t.blobClass = is.Bytes, "genuine"
-		if shape == 2 && t.source == 0 {
+		if t.source == 0 {
+			// the attestation's certificate table carries this task's own endorsement blob
 			switch r.Intn(4, "blob") {
 			case 1:
 				// another firmware with its own genuine endorsement: accepted in isolation
@@ -486,7 +487,7 @@ func runC09(r *core.Run) {
 		}
 		switch t.source {
 		case 0:
-			return f(SnpAttestation(t.meas, nil), is.Bytes)
+			return f(SnpAttestation(t.meas, nil), t.blob)
 		case 1:
 			return f(SnpAttestation(t.meas, nil), nil)
 		}
